@@ -235,7 +235,7 @@ func init() {
 		ID:    "C08",
 		Level: "exploration",
 		Rule: "(source, previous destination) pairs by relative length {absent, empty, shorter by 1/half/one/one+1 block, same, longer ...} x first differing offset class {none, 0, mid block, last byte of a block, first of the next, block 2, tail} " +
-			"x size at block boundaries x protocol {2,3,4} x base64/binary x direction; scaled tier: comparison block 64 bytes (rule R11), sizes 0..200; real tier: 10 MiB block, sizes around 10 and 20 MiB; each a full -y transfer",
+			"x size at block boundaries x protocol {2,3,4} x base64/binary x direction, single files and (six relations) the files of a directory; scaled tier: comparison block 64 bytes (rule R11), sizes 0..200; real tier: 10 MiB block, sizes around 10 and 20 MiB; each a full -y transfer",
 		Assumptions: []string{"the scaled tier runs the same code with one constant (kPrefixHashStep) changed through the overlay; it is always accompanied by the real-constant tier", "payload written is observed through the R9 hook on simpleFileWriter.Write"},
 		QuickBudget: 110, ThoroughBudget: 900, DiedIsViolation: true,
 		Jobs: func(tier string) []vs.Job {
@@ -258,6 +258,14 @@ func init() {
 								cfgs = append(cfgs, wParams{Dir: dir, Protocol: pr, Binary: bin, Overwrite: true, Tree: fmt.Sprintf("one:E:%d", sz), DstPre: rec})
 							}
 						}
+					}
+				}
+			}
+			// the same relations for the files of a directory sent with -y (directory mode opens its files on another path than plain mode)
+			for _, rec := range []string{"c08:longer:9@-1", "c08:longer:7@3", "c08:shorter:5@-1", "c08:same@-1", "c08:same@70", "c08:empty@-1"} {
+				for _, pr := range protos {
+					for _, dir := range []string{"up", "down"} {
+						cfgs = append(cfgs, wParams{Dir: dir, Protocol: pr, Directory: true, Overwrite: true, Tree: "dir", DstPre: rec})
 					}
 				}
 			}
